@@ -5,6 +5,9 @@ package slug
 // Contracts for the govc verifier (see /verif/DESIGN.md). This file contains
 // comments only; it is compiled only with the "verif" build tag.
 
+// A Packer is configured by NewPacker (through the option closures) or by the package-level Pack and never modified afterwards.
+//@ immutable slug.Packer except NewPacker, Pack, Unpack, ApplyTerraformIgnore$1, DereferenceSymlinks$1, AllowSymlinkTarget$1
+
 //@ func (*Packer).validSymlink -> (ok, err)
 //@   pure
 //@   sweep
@@ -73,6 +76,16 @@ package slug
 //@   replay packSelfLoop@C19:
 //@   replay packMeta@C20:
 //@   replay packIgnore@C03:
+//@   replay packUnpack@C05:
+//@   ghost $rejected Bool = false
+//@   requires pre.walk: segUnder(Clean(path), Clean(src))
+//@   closure-invariant C05.walk.src: src == root || p.dereference
+//@   at-call (*archive/tar.Writer).WriteHeader C05.link-kept-only-if-valid: a1.Typeflag == tar.TypeSymlink && len(p.allowSymlinkTargets) == 0 ==>
+//@       segUnder(ite(isAbs(a1.Linkname), Clean(a1.Linkname), Join(Dir(ite(isAbs(path), path, Join(Abs(root), path))), a1.Linkname)), Abs(root))
+//@   at-call (*archive/tar.Writer).WriteHeader C05.link-valid-at-archive-position: a1.Typeflag == tar.TypeSymlink && len(p.allowSymlinkTargets) == 0 && !isAbs(a1.Linkname) ==>
+//@       segUnder(Join(Dir(Join(Abs(root), Rel(root, Replace(path, src, dst, 1)))), a1.Linkname), Abs(root))
+//@   at-call os.Open C05.body-from-inside: segUnder(Clean(a0), Clean(src))
+//@   ensures C05.external-needs-deref: $rejected && !p.dereference && !AbsErr(root) ==> dyntype(rerr, "*slug.IllegalSlugError")
 //@   decreases C19.terminates: maxExternalLinkHops - len(dereferenced)
 //@   at-call os.Open C19.open-regular: modeRegular(fileMode(info)) || (resolved != nil && modeRegular(fileMode(resolved.info)))
 //@   requires pre.captured: p != nil && meta != nil && tarW != nil
